@@ -46,6 +46,11 @@ def cases(tier, seed):
             "gtol": 1e-9,
             "cb": "never",
         }
+        if i % 13 == 12:
+            # scale: dimensions and memories larger than the bulk of the cases
+            ps["n"] = int(rng.integers(25, 61))
+            cfg["maxcor"] = int(rng.integers(11, 31))
+            cfg["maxiter"] = int(gen.pick(rng, [30, 60]))
         chain = [int(rng.integers(1, 6)) for _ in range(int(rng.integers(0, 3)))] if rng.random() < 0.4 else []
         if not chain and rng.random() < 0.35:
             cfg["scaler"] = float(np.exp(rng.uniform(np.log(1e-2), np.log(1e2))))
